@@ -54,6 +54,7 @@ func allProps() []Prop {
 	pick := caseJobs("VerifH_pick", map[string][]int{"method": {0, 1, 2, 3}, "stale": {0, 1}}, []string{"method", "stale"})
 	pickRR := caseJobs("VerifH_pick", map[string][]int{"method": {0, 2, 3}, "stale": {0}}, []string{"method", "stale"}, "rr")
 	done := caseJobs("VerifH_done", map[string][]int{"method": {0, 1, 2, 3}, "on": {0, 1, 2}}, []string{"method", "on"}, "havoc")
+	donep3 := caseJobs("VerifH_donep3", map[string][]int{"method": {0}, "stale": {0}, "on": {0, 1, 2}}, []string{"method", "stale", "on"})
 	usc := caseJobs("VerifH_usc", map[string][]int{"arg_sc": {0, 1, 2, 3}}, []string{"arg_sc"})
 	uccs := one("VerifH_uccs")
 	initJ := one("VerifH_init")
@@ -89,7 +90,7 @@ func allProps() []Prop {
 	pickB, pickRRB, uccsB, rrB, rrwinB, growB, reserrB, errpickB := big(pick), big(pickRR), big(uccs), big(rr), big(rrwin), big(grow), big(reserr), big(errpick)
 	usc, done, pick, pickRR, uccs = cat(usc, uscB), cat(done, doneB), cat(pick, pickB), cat(pickRR, pickRRB), cat(uccs, uccsB)
 	rr, rrwin, grow, reserr, errpick = cat(rr, rrB), cat(rrwin, rrwinB), cat(grow, growB), cat(reserr, reserrB), cat(errpick, errpickB)
-	allGb := cat(initJ, cnt, usc, uccs, reserr, errpick, pick, pickRR, done, rr, rrwin, grow)
+	allGb := cat(initJ, cnt, usc, uccs, reserr, errpick, pick, pickRR, done, donep3, rr, rrwin, grow)
 	const me = "grpcgcp/multiendpoint"
 	meBounds := map[string]string{
 		"endpoints":  "universe {A,B,C} + one unknown name; lists of 0..3 distinct names",
@@ -128,16 +129,16 @@ func allProps() []Prop {
 		meJobs = append(meJobs, Job{Dir: me, Harness: "multiendpoint", Entry: "VerifH_me", Flags: []string{fmt.Sprintf("n0=%d", n0), "steps=1"}, Tier: "quick"})
 		meJobs = append(meJobs, Job{Dir: me, Harness: "multiendpoint", Entry: "VerifH_me", Flags: []string{fmt.Sprintf("n0=%d", n0), "steps=2"}, Tier: "thorough", TmoMs: 120000})
 	}
-	ckBounds := map[string]string{"payload": "standard encoding of 0..4 (quick) / 0..16 (thorough) arbitrary bytes; all 2^32 checksum values", "loop unroll": "20"}
-	ckJobs := []Job{{Dir: "e2e-checksum", Harness: "e2e-checksum", Entry: "VerifH_ck", Unroll: 20}}
+	ckBounds := map[string]string{"payload": "standard encoding of 0..4 (quick) / 0..16 (thorough) arbitrary bytes; all 2^32 checksum values; two Marshal calls in a row (independence of the outputs); the package initialiser of the package under test is executed", "loop unroll": "20"}
+	ckJobs := []Job{{Dir: "e2e-checksum", Harness: "e2e-checksum", Entry: "VerifH_ck", Unroll: 24, Flags: []string{"runInit", "appendCaps"}}}
 	keysBounds := map[string]string{
 		"type family": "vTop{Id string; Mid *vMid; Mids []*vMid; Leaf vLeaf}, vMid{Key string; In *vLeaf; Items []*vLeaf; Vals []vLeaf; Names []string; Nums []int64; Any interface{} (nil | string | *vLeaf | vLeaf); M map[string]string}, vLeaf{Name string; Num int64; Flag bool; hidden string}; every pointer possibly nil; slices of 0..2; plus nil / string / []string messages, the harness message type and generated pb.AffinityConfig / pb.MethodConfig",
 		"locator":     "path of 1..4 segments, each a symbolic choice among the field names in either case, an unknown name, the empty segment (strings.Split is exercised separately on 7 constant locators)",
 		"loop unroll": "6",
 	}
-	icptJobs := cat(one("VerifH_unary"), one("VerifH_stream", "steps=4"), one("VerifH_streamwait"))
+	icptJobs := cat(one("VerifH_unary"), one("VerifH_stream", "steps=4"), one("VerifH_streamwait"), caseJobs("VerifH_streamconc", map[string][]int{"dir": {1, 2}}, []string{"dir"}))
 	icptJobs[2].NoReplay = true // natively the receiver would block in the real cond.Wait: no sender goroutine in the replay
-	icptBounds := map[string]string{"calls": "any sequence of up to 4 calls out of SendMsg/Header/Trailer/CloseSend/Context/RecvMsg-after-first-send from one goroutine; creation succeeding or failing", "interleaving": "one receiver blocked in cond.Wait + one sender running the real SendMsg while it is blocked (or nobody: context ends); lock discipline of ClientStream/initStreamErr as lockset obligations", "options": "0..2 call options", "loop unroll": "6"}
+	icptBounds := map[string]string{"calls": "any sequence of up to 4 calls out of SendMsg/Header/Trailer/CloseSend/Context/RecvMsg-after-first-send from one goroutine; creation succeeding or failing", "interleaving": "one receiver blocked in cond.Wait + one sender running the real SendMsg while it is blocked (or nobody: context ends); on an existing stream: the real SendMsg inline while RecvMsg is inside the underlying stream, and vice versa; lock discipline of ClientStream/initStreamErr as lockset obligations", "options": "0..2 call options", "loop unroll": "6"}
 	var gmeQuick, gmeAll []Job
 	for _, in := range []int{0, 1, 2} {
 		for _, ud := range []int{0, 1} {
@@ -157,9 +158,9 @@ func allProps() []Prop {
 	}
 	gmeNew := caseJobs("VerifH_gmenew", map[string][]int{"bad": {0, 1, 2}}, []string{"bad"})
 	gmeNotify := caseJobs("VerifH_gmenotify", map[string][]int{"flip0": {0, 1, 2}, "flip1": {0, 1, 2}}, []string{"flip0", "flip1"})
-	gmeJobs := cat(gmeAll, gmeNew, gmeNotify, one("VerifH_gmep3"), caseJobs("VerifH_gmenames", map[string][]int{"defaultIsEmptyName": {0, 1}}, []string{"defaultIsEmptyName"}))
+	gmeJobs := cat(gmeAll, gmeNew, gmeNotify, caseJobs("VerifH_gmemonitor", map[string][]int{"ep": {0, 1, 2}}, []string{"ep"}), one("VerifH_gmep3"), caseJobs("VerifH_gmenames", map[string][]int{"defaultIsEmptyName": {0, 1}}, []string{"defaultIsEmptyName"}))
 	gmeBounds := map[string]string{"endpoints": "3 endpoint names", "multiendpoints": "names default/read (+ one name without options, + one unknown name in RPC contexts); lists of 0..2 distinct endpoints", "initial configuration": "quick: default=[a,b], read=[b]; thorough also default=[a] alone and default=[a,b], read=[c,a]", "updates": "one fully symbolic UpdateMultiEndpoints (which MultiEndpoints are present, their lists, the default name, a dial failing at a symbolic position), then RPCs with 4 contexts, Invoke/NewStream, Close (close errors symbolic)", "timers": "recovery timeout and switching delay 0 (the timed behaviour is C13/C14)", "loop unroll": "6"}
-	gmeAssume := append(append([]string{}, commonAssume...), "*grpc.ClientConn is opaque: GetState/Close/Invoke/NewStream are harness summaries over ghost {ready, closed}; context.WithCancel is a harness summary (ghost spawn/cancel pairs stand for monitor goroutines); `go mc.monitor` is recorded, one monitor iteration is exercised by calling notify; protojson.Marshal and grpc.With* options are opaque", "'within bounded time' after a real connectivity change is the gRPC runtime's WaitForStateChange: not covered")
+	gmeAssume := append(append([]string{}, commonAssume...), "*grpc.ClientConn is opaque: GetState/Close/Invoke/NewStream are harness summaries over ghost {ready, closed}; context.WithCancel is a harness summary (ghost spawn/cancel pairs stand for monitor goroutines); `go mc.monitor` is recorded; notify is exercised directly and the real monitor loop is run (VerifH_gmemonitor) against a pool whose state may change between any two reads, with WaitForStateChange summarised as 'returns at once if the pool is not in the given state, else sleeps'; protojson.Marshal and grpc.With* options are opaque", "'within bounded time' after a real connectivity change is the gRPC runtime's WaitForStateChange: not covered")
 	pb := "spanner_prober/prober"
 	pbJobs := []Job{
 		{Dir: pb, Harness: "prober", Entry: "VerifH_backoff", Logic: "QF_FPBV", Unroll: 10, TmoMs: 120000},
@@ -201,13 +202,13 @@ func allProps() []Prop {
 		{ID: "C14", Jobs: meJobs, Assume: commonAssume, Bounds: meBounds},
 		{ID: "C01", Jobs: cat(usc, uccs, pick, done), Assume: commonAssume, Bounds: gbBounds},
 		{ID: "C02", Jobs: cat(usc, uccs, pick, done, rr, rrwin), Assume: commonAssume, Bounds: gbBounds},
-		{ID: "C03", Jobs: cat(initJ, usc, uccs, pick, done, grow), Assume: commonAssume, Bounds: gbBounds},
+		{ID: "C03", Jobs: cat(initJ, usc, uccs, pick, done, donep3, grow), Assume: commonAssume, Bounds: gbBounds},
 		{ID: "C04", Jobs: cat(cnt, initJ, usc, errpick, pick, done), Assume: commonAssume, Bounds: gbBounds},
 		{ID: "C05", Jobs: cat(allGb, keysJobs), Panics: true, Assume: commonAssume, Bounds: gbBounds},
 		{ID: "C06", Jobs: allGb, Progress: true, Assume: commonAssume, Bounds: gbBounds},
-		{ID: "C07", Jobs: cat(initJ, usc, done, []Job{{Dir: gcp, Harness: gcp, Entry: "VerifH_window", TmoMs: 240000, Note: "independent mathematical form of the detection window"}}), Assume: commonAssume, Bounds: gbBounds},
+		{ID: "C07", Jobs: cat(initJ, usc, done, donep3, []Job{{Dir: gcp, Harness: gcp, Entry: "VerifH_window", TmoMs: 240000, Note: "independent mathematical form of the detection window"}}), Assume: commonAssume, Bounds: gbBounds},
 		{ID: "C08", Jobs: cat(usc, pick, done), Assume: commonAssume, Bounds: gbBounds},
 		{ID: "C09", Jobs: cat(rr, rrwin, pickRR, usc), Assume: commonAssume, Bounds: gbBounds},
-		{ID: "C20", Jobs: cat(initJ, uccs, usc, reserr, done, caseJobs("VerifH_pick", map[string][]int{"method": {0}, "stale": {0, 1}}, []string{"method", "stale"}), grow), Assume: commonAssume, Bounds: gbBounds},
+		{ID: "C20", Jobs: cat(initJ, uccs, usc, reserr, done, donep3, caseJobs("VerifH_pick", map[string][]int{"method": {0}, "stale": {0, 1}}, []string{"method", "stale"}), grow), Assume: commonAssume, Bounds: gbBounds},
 	}
 }
